@@ -1,8 +1,8 @@
 #!/bin/bash
 # usage: sweep.sh "<seeds>" [tier] [ids...]  — runs checks sequentially, one summary line each
 SEEDS=${1:-"1"}; TIER=${2:-quick}; shift; shift
-IDS=${@:-$(ls /verif/checks.d | sed 's/.json//' | sort)}
-cd /verif
+IDS=${@:-$(ls "$(dirname "$(readlink -f "$0")")/../checks.d" | sed 's/.json//' | sort)}
+cd "$(dirname "$(readlink -f "$0")")/.."
 for s in $SEEDS; do for c in $IDS; do
   out=$(VERIF_SEED=$s ./check $c --tier $TIER 2>&1); rc=$?
   echo "seed=$s rc=$rc $(echo "$out" | tail -1)"
